@@ -51,10 +51,20 @@ class FakeTimer:
         self.cancelled += 1
 
 
+def text_chunks(text, size=7):
+    """the bytes of `text` cut into reads of `size` bytes (multi-byte characters may straddle reads)"""
+    b = text.encode("utf-8")
+    return [b[i:i + size] for i in range(0, len(b), size)]
+
+
 class Fin(Scripted):
-    def __init__(self, code, pty, timer, thread_src, watcher):
+    def __init__(self, code, pty, timer, thread_src, watcher, out_text=None, err_text=None):
         # the watcher marker goes to the reader that does not crash
         out, err = [b"hello "], [] if pty else [b"oops"]
+        if out_text is not None:
+            out = text_chunks(out_text)
+        if err_text is not None and not pty:
+            err = text_chunks(err_text)
         if watcher:
             if thread_src == "out":
                 err = [b"W"]
@@ -86,9 +96,19 @@ def result_fields(r):
     return {k: (list(getattr(r, k)) if k == "hide" else getattr(r, k)) for k in RESULT_FIELDS}
 
 
+def render_problem(obj):
+    """str()/repr() of a result or failure must not raise, whatever the command printed"""
+    for name, f in (("str", str), ("repr", repr)):
+        try:
+            f(obj)
+        except Exception as e:  # noqa
+            return "%s(%s) raised %s: %s" % (name, type(obj).__name__, type(e).__name__, e)
+    return None
+
+
 def run_fin(case, warn=None):
-    """Drive the real runner.  Returns dict(kind=…, exited=…, ok=…, result=<fields or None>, reason=…)."""
-    runner = Fin(case["code"], case["pty"], case["timer"], case["thread"], case["watcher"])
+    """Drive the real runner.  Returns dict(kind=…, exited=…, ok=…, result=<fields or None>, reason=…, render=…)."""
+    runner = Fin(case["code"], case["pty"], case["timer"], case["thread"], case["watcher"], case.get("out"), case.get("err"))
     kw = dict(warn=case["warn"] if warn is None else warn, hide=case["hide"], encoding="utf-8",
               in_stream=BadIn() if case["thread"] == "in" else False,
               watchers=[Angry()] if case["watcher"] else [])
@@ -107,12 +127,13 @@ def run_fin(case, warn=None):
             exc = e
     if exc is None:
         return dict(kind="return", exited=res.exited, ok=res.ok, failed=res.failed, truth=bool(res), return_code=res.return_code,
-                    result=result_fields(res), reason=None, exact=type(res).__name__)
+                    result=result_fields(res), reason=None, exact=type(res).__name__, render=render_problem(res))
     if isinstance(exc, ThreadException):
         return dict(kind="ThreadException", exited=None, ok=None, result=None, reason=None, exact="ThreadException")
     kind = ("CommandTimedOut" if isinstance(exc, CommandTimedOut) else "UnexpectedExit" if isinstance(exc, UnexpectedExit) else "Failure")
     return dict(kind=kind, exited=exc.result.exited, ok=exc.result.ok, result=result_fields(exc.result),
-                reason=type(exc.reason).__name__ if exc.reason is not None else None, exact=type(exc).__name__)
+                reason=type(exc.reason).__name__ if exc.reason is not None else None, exact=type(exc).__name__,
+                render=render_problem(exc))
 
 
 def canon_fin(o):
@@ -235,9 +256,13 @@ def pty_available():
 # --------------------------------------------------------------------------- Program.run
 
 def program_exit(spec):
-    """SystemExit.code of the real Program.run for a task body described by `spec` (0 when it returns normally).
+    """SystemExit.code of the real Program.run for a task body described by `spec` (0 when it returns normally;
+    "crash:<Exception>" when something other than SystemExit escapes Program.run).
 
-    spec: {"body": "success" | "exit" | "ue" | "real" | "parse", ...}"""
+    spec: {"body": "success" | "exit" | "ue" | "real" | "parse" | "scripted" | "realout", ...}
+      scripted: the task runs a failing SCRIPTED child (the real Runner over scripted output) that printed spec["out"] /
+                spec["err"] and exits with spec["want"], under hide=spec["hide"]
+      realout:  the task runs a REAL child that prints the texts (passed through the environment) and exits"""
     from invoke import Program, Collection, task, Exit
     from invoke.runners import Result
 
@@ -248,9 +273,16 @@ def program_exit(spec):
         if body == "exit":
             raise Exit(spec.get("message"), spec.get("code"))
         if body == "ue":
-            raise UnexpectedExit(Result(command="x", exited=spec["exited"], hide=tuple(spec.get("hide", ()))))
+            raise UnexpectedExit(Result(command="x", exited=spec["exited"], hide=tuple(spec.get("hide", ())),
+                                        stdout=spec.get("out", ""), stderr=spec.get("err", "")))
         if body == "real":
             c.run(spec["cmd"], hide=True, in_stream=False)
+        if body == "scripted":
+            r = Scripted(c, out=text_chunks(spec["out"]), err=text_chunks(spec["err"]), exited=spec["want"], pty=spec.get("pty", False))
+            r.run("the-command", hide=spec["hide"], in_stream=False, encoding="utf-8")
+        if body == "realout":
+            c.run('printf "%s" "$VERIF_OUT"; printf "%s" "$VERIF_ERR" >&2; exit ' + str(spec["want"]), hide=spec["hide"],
+                  in_stream=False, encoding="utf-8", env={"VERIF_OUT": spec["out"], "VERIF_ERR": spec["err"]})
 
     argv = spec["argv"] if body == "parse" else ["inv", "probe"]
     p = Program(namespace=Collection(probe))
@@ -260,4 +292,6 @@ def program_exit(spec):
             p.run(list(argv), exit=True)
         except SystemExit as e:
             return 0 if e.code is None else e.code
+        except Exception as e:  # noqa - the CLI died with a traceback instead of exiting
+            return "crash:%s: %s" % (type(e).__name__, str(e)[:80])
     return 0
